@@ -22,7 +22,7 @@ from optilint.model import dotted
 from optilint.core import Incomplete
 from optilint.expr import Algebra, NotPolynomial
 from optilint.tensoreval import Dual, Arr, EvalError, Raised, _A, rat_is_zero
-from .common import src, same, calls_in, const_value, expand
+from .common import src, same, calls_in, const_value, expand, sem_same, normal_form
 from . import materials as mt
 
 LEVEL = "other"
@@ -40,15 +40,15 @@ LC = "optimism.contact.LevelsetConstraint"
 def run(ctx):
     for m in (EC, MC, PC, LC, "optimism.Surface", "optimism.Mesh"):
         ctx.need_module(m)
-    o1_normals(ctx)
-    o2_cpp(ctx)
-    o3_levelset(ctx)
-    o4_mortar(ctx)
-    o4_assembly(ctx)
-    o2_closest_by_abs(ctx)
+    ctx.guard(o1_normals, ctx)
+    ctx.guard(o2_cpp, ctx)
+    ctx.guard(o3_levelset, ctx)
+    ctx.guard(o4_mortar, ctx)
+    ctx.guard(o4_assembly, ctx)
+    ctx.guard(o2_closest_by_abs, ctx)
     # the overlap measure relies on the smoothed end parameter being the specified C1 ramp (shared with C18)
     from . import C18
-    C18.smooth_linear(ctx)
+    ctx.guard(C18.smooth_linear, ctx)
     ctx.trust("outward normal of a counter-clockwise boundary edge with tangent t is (t_y, -t_x)")
 
 
@@ -229,10 +229,10 @@ def o3_levelset(ctx):
         if target is None:
             ctx.undecided(rule, sc, None, construct=f"{fname}:sample-points", detail="no level-set call / returned coordinates found")
             continue
-        e = expand(cfg, tnode, target)
+        e = normal_form(sc, tnode, target)
         want = (f"QuadratureRule.eval_at_iso_points({quad}.xigauss, Surface.eval_field({mesh}.coords, Surface.get_field_index({edge}, {mesh}.conns)) + "
                 f"Surface.eval_field({disp}, Surface.get_field_index({edge}, {mesh}.conns)))")
-        ok = same(e, want)
+        ok = sem_same(e, want, sc)
         ctx.decide(rule, ok, sc, tnode.ast, construct=f"{mname.split('.')[-1]}.{fname}:points=coords+disp",
                    detail="obstacle function evaluated at quadrature points of (edge coordinates + edge displacements)",
                    bad_detail=f"{fname}: sample points are `{src(e)[:160]}`; expected the quadrature points of coordinates + displacements of the same edge")
@@ -240,14 +240,14 @@ def o3_levelset(ctx):
     sc = ctx.need(f"{PC}:compute_edge_penalty_contact_energy")
     cfg = cfg_of(sc)
     r = cfg.returns()
-    e = expand(cfg, r[0], r[0].ast.value) if r else None
+    e = normal_form(sc, r[0], r[0].ast.value) if r else None
     ok = False
     if e is not None:
         lv_, me_, di_, qu_, ed_, st_ = sc.params()
         ec_ = f"Surface.eval_field({me_}.coords, Surface.get_field_index({ed_}, {me_}.conns))"
         pts_ = f"QuadratureRule.eval_at_iso_points({qu_}.xigauss, {ec_} + Surface.eval_field({di_}, Surface.get_field_index({ed_}, {me_}.conns)))"
-        ok = same(e, f"{st_} * Surface.integrate_values({qu_}, {ec_}, np.square(np.minimum(0.0, {lv_}({pts_}))))") or \
-            same(e, f"{st_} * Surface.integrate_values({qu_}, {ec_}, np.square(np.minimum({lv_}({pts_}), 0.0)))")
+        ok = sem_same(e, f"{st_} * Surface.integrate_values({qu_}, {ec_}, np.square(np.minimum(0.0, {lv_}({pts_}))))", sc) or \
+            sem_same(e, f"{st_} * Surface.integrate_values({qu_}, {ec_}, np.square(np.minimum({lv_}({pts_}), 0.0)))", sc)
     ctx.decide("O3/T8-penalty-integrand", ok, sc, r[0].ast if r else None, construct="penalty=stiffness*int(min(0,phi)^2)",
                detail="square of the negative part, reference edge weights, times stiffness",
                bad_detail=f"penalty energy is `{src(e)[:140] if e is not None else '?'}`; expected stiffness * integral of square(minimum(0, levelset))")
